@@ -10,8 +10,9 @@ Four kinds of cases (case["t"]):
          hands over private deep copies and never touches them; traces (drift_state, counters, public outputs,
          digests of the stored data -- read right after the call and once more after the overwrite) must be
          identical; every argument is byte-compared before / after each call in both runs;
-  inj    one injector call (cases of harness/c20.py and a few more containers): input and dict bit-for-bit
-         unchanged, result a new object of the same container type that shares no memory with the input.
+  inj    one injector call (cases of harness/c20.py and a few more containers), or a sequence of calls on one reused
+         injector instance: input and dict bit-for-bit unchanged, result a new object of the container type of
+         ITS input that shares no memory with the input.
 The Coq side (Heap.v) predicts Copy / View per site and container, and promises equal traces where it predicts
 copies only."""
 import copy, hashlib, json, math, types, warnings
@@ -52,7 +53,8 @@ RULE = ("fact: every library fact x every container kind it applies to. alias: e
         "all 15 detectors and both ensembles x containers x overwrite modes {fill 99, reverse rows, one column, rename columns, "
         "reused buffer} with set_reference at a random position for batch detectors; histories are piecewise stationary with "
         "shifts so that drifts (adopted batches) occur. inj: a stratified sample of C20's cases (all injectors x layouts) + read-only "
-        "arrays, mixed-dtype frames, refused containers. Non-trivial: alias -- the site was reached; twin -- at least one overwrite "
+        "arrays, mixed-dtype frames, refused containers, and C20's call sequences on ONE reused injector instance (DataFrame / ndarray inputs "
+        "alternating). Non-trivial: alias -- the site was reached; twin -- at least one overwrite "
         "changed the bytes of a handed-over object (drift counts are in the stats); inj -- the result differs from the input.")
 
 KIND = {"C": "KArrC", "F": "KArrF", "strided": "KArrStrided", "readonly": "KArrReadonly", "list": "KList",
@@ -683,7 +685,10 @@ INJ_KIND = {"C": "KArrC", "F": "KArrF", "strided": "KArrStrided", "reversed": "K
             "df_mixed": "KDFMixed", "list": "KList", "series": "KSeries"}
 
 
-def run_inj(case):
+def run_inj(case, shared=None):
+    if case["inj"] == "seq":
+        inst = c20.INJ[case["cls"]]()          # ONE instance for every call of the sequence
+        return {"calls": [run_inj(sub, inst) for sub in case["calls"]]}
     case = dict(case, args=dict(case["args"]))
     a, k = case["args"], case["inj"]
     if k == "prob":
@@ -698,7 +703,7 @@ def run_inj(case):
     np.random.seed(case["seed"])
     obs = {"raised": None}
     try:
-        _, out = c20.call(c2, obj)
+        _, out = c20.call(c2, obj, shared)
         obs["same_type"] = type(out) is type(obj)
         obs["is_input"] = out is obj
         obs["shares"] = bool(out is obj or shares([obj] + roots, out))
@@ -774,7 +779,10 @@ def run_impl(case):
         return o
     if t == "inj":
         o = run_inj(case)
-        _bump("inj_returned" if o["raised"] is None else "inj_raised")
+        for oo in o.get("calls", [o]):
+            _bump("inj_returned" if oo["raised"] is None else "inj_raised")
+        if "calls" in o:
+            _bump("inj_sequences_on_one_instance")
         return o
     raise ValueError(t)
 
@@ -817,6 +825,13 @@ def direct_check(case, obs):
             msgs.append(f"{who(case)}: overwriting the handed-over objects changes the detector's outputs; first difference at call "
                         f"{obs['first_diff']['position']} ({obs['first_diff']['call']}): {json.dumps(obs['first_diff']['differs'])[:500]}")
         return msgs
+    if t == "inj" and case["inj"] == "seq":
+        for i, (sub, o) in enumerate(zip(case["calls"], obs["calls"])):
+            m = direct_check(dict(sub, t="inj"), o)
+            if m:
+                return [f"call {i + 1} of {len(case['calls'])} on one {case['cls']} injector instance (inputs so far "
+                        f"{[c['layout'] for c in case['calls'][:i + 1]]}): {x}" for x in m]
+        return []
     if t == "inj":
         k = case["inj"]
         if not obs["input_unchanged"]:
@@ -854,6 +869,10 @@ def coq_term(case, obs):
         if case.get("det") == "MD3" and case["container"] == "df_mixed":
             ks.add("KDFOne")
         return f"chk_twin current {ds} {G.lst(sorted(ks))} {G.boolc(obs['equal'] and not obs['alias'] and not obs['arg_changed'])}"
+    if t == "inj" and case["inj"] == "seq":
+        ts = [coq_term(dict(sub, t="inj"), o) for sub, o in zip(case["calls"], obs["calls"])]
+        ts = [f"({x})" for x in ts if x is not None]
+        return " && ".join(ts) if ts else None
     if t == "inj":
         raised = obs["raised"] is not None
         k = INJ_KIND[case["layout"]]
@@ -874,6 +893,9 @@ def nontrivial(case, obs):
         return bool(obs.get("reached"))
     if t == "twin":
         return obs["n_overwrites"] > 0 and obs["n_calls"] > obs["errors"]
+    if t == "inj" and case["inj"] == "seq":
+        kinds = {"df" if c["layout"] == "df" else "array" for c in case["calls"]}
+        return len(kinds) == 2 and any(o["raised"] is None for o in obs["calls"])
     if t == "inj":
         return obs["raised"] is None and bool(obs.get("differs"))
     return False
@@ -888,6 +910,12 @@ def signature(case, obs, msgs):
 
 
 def shrink_candidates(case):
+    if case["t"] == "inj" and case.get("inj") == "seq":
+        calls = case["calls"]
+        for i in range(len(calls)):
+            if len(calls) > 1:
+                yield dict(case, calls=calls[:i] + calls[i + 1:])
+        return
     if case["t"] != "twin":
         return
     if "data" in case and len(case["data"]) > 3:
@@ -933,7 +961,7 @@ def mode_ok(mode, kind, dk):
 
 def gen_cases(ctx):
     rng = ctx.rng
-    cases, md3_cases = [], []
+    cases = []
     st = ctx.stats
     bump = lambda k: st.__setitem__(k, st.get(k, 0) + 1)
     # ---- library facts
@@ -949,7 +977,7 @@ def gen_cases(ctx):
                     c["second"] = True
                 if site.startswith("Ens") and rng.random() < 0.5:
                     c["selectors"] = True
-                (md3_cases if det == "MD3" else cases).append(c); bump("alias_cases"); bump(f"alias_kind_{k}")
+                cases.append(c); bump("alias_cases"); bump(f"alias_kind_{k}")
     # ---- twin experiment: every detector x containers x modes
     kcount = 0
     for name in SPECS:
@@ -980,7 +1008,7 @@ def gen_cases(ctx):
                 c.update({"t": "twin", "det": name, "container": kind, "mode": mode, "seed": (ctx.seed + 31 * kcount) % 100000})
                 if dk == "batch" and rng.random() < 0.4:
                     c["set_reference_at"] = rng.randint(1, max(1, len(c["data"]) - 3))
-                (md3_cases if name == "MD3" else cases).append(c)
+                cases.append(c)
                 bump("twin_cases"); bump(f"twin_mode_{mode}"); bump(f"twin_kind_{kind}"); bump(f"twin_det_{name}")
     # ---- ensembles
     for ens in ("batch", "stream"):
@@ -996,7 +1024,19 @@ def gen_cases(ctx):
                 cases.append(c); bump("twin_cases"); bump(f"twin_ensemble_{ens}")
     # ---- injectors: a stratified sample of C20's cases, plus more containers
     sub = types.SimpleNamespace(rng=rng, seed=ctx.seed, stats={}, thorough=False, scale=lambda q, t: q)
-    pool = [c for c in c20.gen_cases(sub) if c["inj"] != "freq"]
+    need = ("rows", "w", "from", "to", "args", "layout", "names", "seed")
+    allc20 = c20.gen_cases(sub)
+    pool = [c for c in allc20 if c.get("inj") in c20.INJ and all(k in c for k in need)]
+    # call sequences on ONE reused injector instance (DataFrame and ndarray inputs alternate): the container type of
+    # every result must be that of ITS input, whatever the instance processed before
+    seqs = [c for c in allc20 if c.get("inj") == "seq" and c.get("cls") in c20.INJ
+            and all(all(k in sc for k in need) for sc in c.get("calls", []))]
+    byc = {}
+    for c in seqs:
+        byc.setdefault(c["cls"], []).append(c)
+    for cls, cs in sorted(byc.items()):
+        for c in rng.sample(cs, min(ctx.scale(8, 40), len(cs))):
+            cases.append(dict(c, t="inj")); bump("inj_seq_cases"); bump(f"inj_seq_{cls}")
     by = {}
     for c in pool:
         by.setdefault((c["inj"], c["layout"]), []).append(c)
@@ -1016,5 +1056,4 @@ def gen_cases(ctx):
                 if cols and c["w"] >= 2 and c["rows"]:
                     cases.append(dict(c, t="inj", layout="df_mixed", intcol=cols[0])); bump("inj_cases"); bump("inj_layout_df_mixed")
                 cases.append(dict(c, t="inj", layout="series")); bump("inj_cases"); bump("inj_layout_series")
-    # MD3 last: its open finding must not use up the report slots of anything else
-    return cases + md3_cases
+    return cases
